@@ -101,6 +101,8 @@ def oracle_case(case):
         return oracle_effect(case)
     if case.get('via') == 'scope':
         return oracle_scope(case)
+    if case.get('via') == 'leaves':
+        return oracle_leaves(case)
     src, mode, via = case['src'], case['mode'], case.get('via', 'raw')
     try:
         if via == 'api':
@@ -597,6 +599,41 @@ def run_cases(cases, res, tag):
             res.failures.append(f)
 
 
+def leaf_failure(case, tree, toks, code=None):
+    """the leaf oracle on one tree and the tokens of its regenerated source: every identifier, literal,
+    operator and clause keyword of the tree (harness/py_leaves.py, written against the Python grammar)
+    occurs in the regenerated source, in order — demanded only of accepted programs (the source compiles)"""
+    from harness import py_leaves
+    want = py_leaves.leaves_of(tree, case['mode'])
+    if want is None:
+        return None
+    k = py_leaves.missing_leaf(want, toks)
+    if k is None:
+        return None
+    if code is None:
+        from genshi.template.astutil import ASTCodeGenerator
+        code = ASTCodeGenerator(tree).code
+    try:
+        compile(code, '<regenerated>', case['mode'])
+    except (SyntaxError, ValueError, RecursionError, MemoryError):
+        return None          # rejected: construction fails loudly
+    return {'case': {'mode': case['mode'], 'src': case['src'], 'via': 'leaves', 'tree': case.get('via', 'raw')},
+            'what': 'every identifier, literal, operator and clause keyword of the tree occurs in the regenerated source, in order',
+            'expected': 'leaf #%d %r (of %r)' % (k, want[k], want[:60]), 'observed': repr(toks)[:1500],
+            'regenerated': code[:600]}
+
+
+def oracle_leaves(case):
+    c = {'mode': case['mode'], 'src': case['src'], 'via': case.get('tree', 'raw')}
+    tree = trees_of(c)
+    if tree is None:
+        return None
+    real = real_gen(tree)
+    if real[0] != 'ok':
+        return None
+    return leaf_failure(c, tree, [t for _, l in real[1] for t in l])
+
+
 def real_gen(tree):
     """('ok', lines) | ('raises', exception class) | ('untokenizable', code) for the real generator on a tree"""
     from genshi.template.astutil import ASTCodeGenerator
@@ -784,7 +821,7 @@ def compare_model(cases, res):
     """Lean gen vs ASTCodeGenerator on the same trees, as token streams"""
     compare_parse(cases, res)
     compare_parseS(cases, res)
-    lines, meta = [], []
+    lines, meta, lv = [], [], []
     for c in cases:
         try:
             tree = trees_of(c)
@@ -797,6 +834,9 @@ def compare_model(cases, res):
             continue
         lines.append(req)
         meta.append((c, real))
+        if real[0] == 'ok':
+            lv.append((c, tree, [t for _, l in real[1] for t in l]))
+    compare_leaves(lv, res)
     answers = proto.run_lines(lines)
     for (c, real), ans in zip(meta, answers):
         stream = 'gen-' + c['mode']
@@ -820,6 +860,54 @@ def compare_model(cases, res):
         res.count('model:' + ('raises' if want == 'raises' else 'ok'))
         if model != want:
             res.disagreements.append({'stream': stream, 'case': c, 'model': repr(model)[:600], 'real': repr(want)[:600]})
+
+
+def compare_leaves(items, res):
+    """`leaves` / `leavesB` of the Lean model vs harness/py_leaves.py on the same trees (accepted by the
+    real generator), and the leaf oracle on the real code: the leaves are a subsequence of
+    tokenize(ASTCodeGenerator(tree).code)"""
+    from harness import py_leaves
+    lines, meta = [], []
+    for c, tree, toks in items:
+        if not in_hypothesis(c):
+            continue
+        try:
+            want = py_leaves.leaves_of(tree, c['mode'])
+            if c['mode'] == 'eval':
+                req = proto.line(Atom('C13'), Atom('leaves'), G.to_wire(tree.body))
+            else:
+                req = proto.line(Atom('C13'), Atom('leavesS'), [G.to_wire(s) for s in tree.body])
+        except RecursionError:
+            res.count('leaves:recursion-limit')
+            continue
+        lines.append(req)
+        meta.append((c, tree, toks, want))
+    answers = proto.run_lines(lines)
+    for (c, tree, toks, want), ans in zip(meta, answers):
+        stream = 'leaves-' + c['mode']
+        if ans == 'unmodelled':
+            res.count('leaves:unmodelled')
+            continue
+        if ans == 'outside' or want is None:
+            res.count('leaves:outside' + ('' if (ans == 'outside') == (want is None) else ':one-side-only'))
+            if ans == 'outside' and want is not None:
+                # the Lean domain is narrower than the oracle's: still judge the real code
+                f = leaf_failure(c, tree, toks)
+                if f:
+                    res.failures.append(f)
+            continue
+        res.streams[stream] = res.streams.get(stream, 0) + 1
+        try:
+            model = proto.dec(ans)
+        except Exception:  # noqa
+            model = Atom(ans)
+        res.count('leaves:n=%s' % ('0-3' if len(want) < 4 else '4-15' if len(want) < 16 else '16+'))
+        if model != [Atom('ok'), want]:
+            res.disagreements.append({'stream': stream, 'case': c, 'model': repr(model)[:900], 'real': repr([Atom('ok'), want])[:900]})
+        res.evaluations += 1
+        f = leaf_failure(c, tree, toks)
+        if f:
+            res.failures.append(f)
 
 
 # --------------------------------------------------------------------------
